@@ -133,21 +133,63 @@ theorem consume_block : ∀ (ls : List Bytes) (p : RawParser) (body : Bytes), p.
     simp only [hh, List.reverse_nil, List.nil_append] at this ⊢
     simpa using this
 
+/-- at the call in which the block completes the collected headers are handed over; otherwise nothing is -/
+theorem consume_hdr : ∀ (s : Bytes) (p : RawParser), p.done = false →
+    ((p.consume s).2.2 = some (p.consume s).1.h ∧ (p.consume s).1.done = true) ∨
+    ((p.consume s).2.2 = none ∧ (p.consume s).1.done = false) := by
+  intro s
+  induction s with
+  | nil => intro p hd; right; simp [RawParser.consume, hd]
+  | cons c s ih =>
+    intro p hd
+    simp only [RawParser.consume, hd, Bool.false_eq_true, if_false]
+    by_cases hc : c = 10 ∧ p.hrev.head? = some 13
+    · simp only [hc, and_self, if_true]
+      by_cases ht : p.hrev.tail.isEmpty = true
+      · simp only [ht, if_true]; left; exact ⟨by rt, by rt⟩
+      · simp only [ht, Bool.false_eq_true, if_false]
+        exact ih _ rfl
+    · simp only [hc, if_false]
+      exact ih _ rfl
+
+/-! ### traces -/
+
+def Trace.bytes (t : Trace) : Bytes := (t.sends.map (·.1)).flatten
+def Trace.eofs (t : Trace) : Nat := (t.sends.filter (·.2)).length
+
+theorem Trace.sends_append (a c : Trace) : (a ++ c).sends = a.sends ++ c.sends := by
+  simp [Trace.sends, List.filterMap_append]
+
+theorem Trace.hdrs_append (a c : Trace) : (a ++ c).hdrs = a.hdrs ++ c.hdrs := by
+  simp [Trace.hdrs, List.filterMap_append]
+
+theorem Trace.bytes_append (a c : Trace) : (a ++ c).bytes = a.bytes ++ c.bytes := by
+  simp [Trace.bytes, Trace.sends_append]
+
+theorem Trace.eofs_append (a c : Trace) : (a ++ c).eofs = a.eofs + c.eofs := by
+  simp [Trace.eofs, Trace.sends_append, List.filter_append]
+
+@[simp] theorem Trace.sends_send (bs : Bytes) (e : Bool) : Trace.sends [WEv.send bs e] = [(bs, e)] := rfl
+@[simp] theorem Trace.sends_hdr (h : Headers) : Trace.sends [WEv.hdr h] = [] := rfl
+@[simp] theorem Trace.sends_flush : Trace.sends [WEv.asyncFlush] = [] := rfl
+@[simp] theorem Trace.hdrs_send (bs : Bytes) (e : Bool) : Trace.hdrs [WEv.send bs e] = [] := rfl
+@[simp] theorem Trace.hdrs_hdr (h : Headers) : Trace.hdrs [WEv.hdr h] = [h] := rfl
+@[simp] theorem Trace.hdrs_flush : Trace.hdrs [WEv.asyncFlush] = [] := rfl
+@[simp] theorem Trace.bytes_send (bs : Bytes) (e : Bool) : Trace.bytes [WEv.send bs e] = bs := by simp [Trace.bytes, Trace.sends, WEv.asSend]
+@[simp] theorem Trace.bytes_hdr (h : Headers) : Trace.bytes [WEv.hdr h] = [] := rfl
+@[simp] theorem Trace.bytes_nil : Trace.bytes [] = [] := rfl
+@[simp] theorem Trace.sends_nil : Trace.sends [] = [] := rfl
+@[simp] theorem Trace.hdrs_nil : Trace.hdrs [] = [] := rfl
+
+/-- the event `set_response_headers` leaves in the trace when the raw header block completes -/
+def hdrEv : Option Headers → Trace
+  | some h => [WEv.hdr h]
+  | none => []
+
+theorem setHeaders_opt (k : Trace) (o : Option Headers) : (o.map (traceIf.setHeaders k)).getD k = k ++ hdrEv o := by
+  cases o <;> simp [hdrEv, traceIf]
+
 /-! ### the devices -/
-
-abbrev Log := List (Bytes × Bool)
-
-/-- a connection that records what it is given and never fails -/
-def logIf : ConnIf Log := { send := fun k bs eof => (k ++ [(bs, eof)], true), setHeaders := fun k _ => k }
-
-def Log.bytes (k : Log) : Bytes := (k.map (·.1)).flatten
-def Log.eofs (k : Log) : Nat := (k.filter (·.2)).length
-
-theorem Log.bytes_append (k : Log) (bs : Bytes) (e : Bool) : Log.bytes (k ++ [(bs, e)]) = Log.bytes k ++ bs := by
-  simp [Log.bytes]
-
-theorem Log.eofs_append (k : Log) (bs : Bytes) (e : Bool) : Log.eofs (k ++ [(bs, e)]) = Log.eofs k + (if e then 1 else 0) := by
-  cases e <;> simp [Log.eofs, List.filter_append]
 
 theorem nextSize_gt (n : Nat) : n < Gen.nextSize n := by
   unfold Gen.nextSize; split <;> omega
@@ -179,27 +221,83 @@ modes — what is left once the application's own header block has been taken ou
 def filterOf (raw : Bool) (s : Bytes) : Bytes := if raw then rawPassed {} s else s
 
 /-- device invariant relative to the bytes written into it (`inp`): `fed` is the part already handed to `write` -/
-def Dev.Inv (d : Dev) (k : Log) (inp : Bytes) : Prop :=
+def Dev.Inv (d : Dev) (k : Trace) (inp : Bytes) : Prop :=
   ∃ fed, d.dead = false ∧ d.pos ≤ d.vec.length ∧ fed ++ d.vec.take d.pos = inp ∧
-    Log.bytes k = filterOf d.rawMode fed ∧ (d.rawMode = true → d.raw = rawNext {} fed)
+    k.bytes = filterOf d.rawMode fed ∧ (d.rawMode = true → d.raw = rawNext {} fed)
 
 def eofFlag (d : Dev) : Bool := d.final && !d.eofSend
 
-/-- what an operation may do to the log: nothing, or one more entry carrying the current eof flag -/
-def LogStep (d d' : Dev) (k k' : Log) : Prop :=
-  d'.final = d.final ∧
-    ((k' = k ∧ d'.eofSend = d.eofSend) ∨ (∃ bs, k' = k ++ [(bs, eofFlag d)] ∧ d'.eofSend = eofFlag d) ∨
-     (k' = k ∧ eofFlag d = false ∧ d'.eofSend = false))
+/-- what one device operation may do to the trace and to the fields the trace depends on: at most one
+`set_response_headers` (raw modes, when the header block completes) and at most one `do_write`, which
+carries the current eof flag -/
+structure Step (d d' : Dev) (k k' : Trace) : Prop where
+  final : d'.final = d.final
+  mode : d'.rawMode = d.rawMode
+  rawKeep : d.raw.done = true → d'.raw = d.raw
+  ext : ∃ pre post, k' = k ++ pre ++ post ∧
+    ((pre = [] ∧ (d.rawMode = true → d'.raw.done = d.raw.done)) ∨
+     (pre = [WEv.hdr d'.raw.h] ∧ d.rawMode = true ∧ d.raw.done = false ∧ d'.raw.done = true)) ∧
+    ((post = [] ∧ d'.eofSend = d.eofSend) ∨
+     (∃ bs, post = [WEv.send bs (eofFlag d)] ∧ d'.eofSend = (d.eofSend || eofFlag d) ∧
+        (d.rawMode = true → d'.raw.done = false → eofFlag d = true)))
 
-/-- `write(content ++ extra)` followed by emptying the buffer keeps the invariant -/
-theorem Dev.write_inv (d : Dev) (k : Log) (inp : Bytes) (extra : Bytes) (out : List Bytes) (hout : out.flatten = d.content ++ extra)
+/-- operations that only touch the buffer -/
+theorem Step.of_fields {d d' : Dev} (k : Trace) (hf : d'.final = d.final) (hm : d'.rawMode = d.rawMode) (hr : d'.raw = d.raw)
+    (he : d'.eofSend = d.eofSend) : Step d d' k k :=
+  ⟨hf, hm, fun _ => hr, [], [], by simp, Or.inl ⟨rfl, fun _ => by rw [hr]⟩, Or.inl ⟨rfl, he⟩⟩
+
+theorem Step.refl (d : Dev) (k : Trace) : Step d d k k := Step.of_fields k rfl rfl rfl rfl
+
+/-- a step from a device that agrees with `d` on the relevant fields is a step from `d` -/
+theorem Step.from {d d1 d' : Dev} {k k' : Trace} (h : Step d1 d' k k') (hf : d1.final = d.final) (hm : d1.rawMode = d.rawMode)
+    (hr : d1.raw = d.raw) (he : d1.eofSend = d.eofSend) : Step d d' k k' := by
+  have hflag : eofFlag d1 = eofFlag d := by simp [eofFlag, hf, he]
+  obtain ⟨h1, h2, h3, pre, post, h4, h5, h6⟩ := h
+  refine ⟨by rw [h1, hf], by rw [h2, hm], by rw [← hr]; exact h3, pre, post, h4, ?_, ?_⟩
+  · rw [← hm, ← hr]; exact h5
+  · rw [← hm, ← he, ← hflag]; exact h6
+
+/-- a step into a device that agrees with `d'` on the relevant fields -/
+theorem Step.into {d d' d2 : Dev} {k k' : Trace} (h : Step d d' k k') (hf : d2.final = d'.final) (hm : d2.rawMode = d'.rawMode)
+    (hr : d2.raw = d'.raw) (he : d2.eofSend = d'.eofSend) : Step d d2 k k' := by
+  obtain ⟨h1, h2, h3, pre, post, h4, h5, h6⟩ := h
+  refine ⟨by rw [hf, h1], by rw [hm, h2], by rw [hr]; exact h3, pre, post, h4, ?_, ?_⟩
+  · rw [hr]; exact h5
+  · rw [he, hr]; exact h6
+
+theorem Step.sends {d d' : Dev} {k k' : Trace} (h : Step d d' k k') :
+    k'.sends = k.sends ∨ ∃ bs, k'.sends = k.sends ++ [(bs, eofFlag d)] := by
+  obtain ⟨_, _, _, pre, post, h4, h5, h6⟩ := h
+  have hp : pre.sends = [] := by
+    rcases h5 with ⟨hp, _⟩ | ⟨hp, _⟩ <;> rw [hp] <;> rfl
+  rcases h6 with ⟨hq, _⟩ | ⟨bs, hq, _⟩
+  · left; rw [h4, Trace.sends_append, Trace.sends_append, hp, hq]; simp
+  · right; exact ⟨bs, by rw [h4, Trace.sends_append, Trace.sends_append, hp, hq]; simp⟩
+
+theorem Step.eofs {d d' : Dev} {k k' : Trace} (h : Step d d' k k') (hf : eofFlag d = false) : k'.eofs = k.eofs := by
+  rcases h.sends with hs | ⟨bs, hs⟩
+  · simp [Trace.eofs, hs]
+  · simp [Trace.eofs, hs, hf, List.filter_append]
+
+theorem Step.hdrs_nonraw {d d' : Dev} {k k' : Trace} (h : Step d d' k k') (hm : d.rawMode = false) : k'.hdrs = k.hdrs := by
+  obtain ⟨_, _, _, pre, post, h4, h5, h6⟩ := h
+  have hp : pre = [] := by
+    rcases h5 with ⟨hp, _⟩ | ⟨_, hr, _⟩
+    · exact hp
+    · rw [hm] at hr; cases hr
+  have hq : post.hdrs = [] := by
+    rcases h6 with ⟨hq, _⟩ | ⟨bs, hq, _⟩ <;> rw [hq] <;> rfl
+  rw [h4, hp, List.append_nil, Trace.hdrs_append, hq, List.append_nil]
+
+/-- `write(content ++ extra)`: the device afterwards (buffer untouched) and the trace -/
+theorem Dev.write_inv (d : Dev) (k : Trace) (inp : Bytes) (extra : Bytes) (out : List Bytes) (hout : out.flatten = d.content ++ extra)
     (h : d.Inv k inp) :
-    ∃ d' k', d.write logIf k out = (d', k', true) ∧ d'.dead = false ∧ d'.rawMode = d.rawMode ∧
+    ∃ d' k', d.write traceIf k out = (d', k', true) ∧ d'.dead = false ∧
       d'.vec = d.vec ∧ d'.pos = d.pos ∧ d'.bufferSize = d.bufferSize ∧ d'.isAsync = d.isAsync ∧ d'.fullBuffering = d.fullBuffering ∧
-      d'.final = d.final ∧ d'.eofSend = eofFlag d ∧
-      Log.bytes k' = filterOf d.rawMode (inp ++ extra) ∧ (d.rawMode = true → d'.raw = rawNext {} (inp ++ extra)) ∧
-      ((∃ bs, k' = k ++ [(bs, eofFlag d)]) ∨ (k' = k ∧ eofFlag d = false)) ∧
-      (eofFlag d = true → k' = k ++ [(filterOf d.rawMode (inp ++ extra) |>.drop (Log.bytes k).length, true)]) := by
+      k'.bytes = filterOf d.rawMode (inp ++ extra) ∧ (d.rawMode = true → d'.raw = rawNext {} (inp ++ extra)) ∧
+      Step d d' k k' ∧
+      (eofFlag d = true → k'.sends = k.sends ++ [((filterOf d.rawMode (inp ++ extra)).drop k.bytes.length, true)]) ∧
+      d'.eofSend = (d.eofSend || eofFlag d) := by
   obtain ⟨fed, hd, hp, hi, hk, hr⟩ := h
   have hfe : fed ++ (d.content ++ extra) = inp ++ extra := by unfold Dev.content; rw [← List.append_assoc, hi]
   unfold Dev.write
@@ -211,87 +309,110 @@ theorem Dev.write_inv (d : Dev) (k : Log) (inp : Bytes) (extra : Bytes) (out : L
     rw [hfe] at ca1 ca2
     by_cases hdone : d.raw.done = true
     · -- header block complete: everything goes through
-      simp only [hdone, Bool.not_true, Bool.false_eq_true, if_false, logIf, if_true, hout]
+      simp only [hdone, Bool.not_true, Bool.false_eq_true, if_false, traceIf, if_true, hout]
       have hc := consume_done d.raw hdone (d.content ++ extra)
       have hpass : rawPassed (rawNext {} fed) (d.content ++ extra) = d.content ++ extra := by rw [← hrw]; simp [rawPassed, hc]
       have hnext : rawNext (rawNext {} fed) (d.content ++ extra) = d.raw := by rw [← hrw]; simp [rawNext, hc]
-      refine ⟨_, _, rfl, (by first | exact hd | rfl), (by first | exact hraw | rfl), rfl, rfl, rfl, rfl, rfl, rfl, rfl, ?_, ?_, Or.inl ⟨_, rfl⟩, ?_⟩
-      · rw [Log.bytes_append, hk, ca2, hpass]
+      refine ⟨_, _, rfl, (by first | exact hd | rfl), rfl, rfl, rfl, rfl, rfl, ?_, ?_, ?_, ?_, rfl⟩
+      · rw [Trace.bytes_append, hk, ca2, hpass, Trace.bytes_send]
       · intro _; rw [ca1, hnext]
+      · refine ⟨rfl, (by simp [hraw]), fun _ => rfl, [], [WEv.send (d.content ++ extra) (d.final && !d.eofSend)], by simp,
+          Or.inl ⟨rfl, fun _ => rfl⟩, Or.inr ⟨_, rfl, rfl, ?_⟩⟩
+        intro _ hnd
+        rw [hdone] at hnd; cases hnd
       · intro hf
         simp only [eofFlag] at hf
-        rw [hf, ca2, hpass, ← hk]
+        rw [Trace.sends_append, hf, ca2, hpass, ← hk]
         simp
     · simp only [Bool.not_eq_true] at hdone
-      simp only [hdone, Bool.not_false, if_true, hout, logIf]
+      simp only [hdone, Bool.not_false, if_true, hout, setHeaders_opt]
       have hnext : (d.raw.consume (d.content ++ extra)).1 = rawNext {} (inp ++ extra) := by rw [ca1, ← hrw]; rfl
       have hpass : (d.raw.consume (d.content ++ extra)).2.1 = rawPassed (rawNext {} fed) (d.content ++ extra) := by rw [← hrw]; rfl
-      have hk2 : ((Option.map (fun _ => k) (d.raw.consume (d.content ++ extra)).2.2).getD k) = k := by
-        cases (d.raw.consume (d.content ++ extra)).2.2 <;> rfl
+      have hh := consume_hdr (d.content ++ extra) d.raw hdone
       by_cases hsend : ((d.raw.consume (d.content ++ extra)).1.done || (d.final && !d.eofSend)) = true
-      · simp only [hsend, if_true, hk2]
-        refine ⟨_, _, rfl, (by first | exact hd | rfl), (by first | exact hraw | rfl), rfl, rfl, rfl, rfl, rfl, rfl, rfl, ?_, ?_, Or.inl ⟨_, rfl⟩, ?_⟩
-        · rw [Log.bytes_append, hk, ca2, hpass]
+      · simp only [hsend, if_true, traceIf]
+        refine ⟨_, _, rfl, (by first | exact hd | rfl), rfl, rfl, rfl, rfl, rfl, ?_, ?_, ?_, ?_, rfl⟩
+        · rw [Trace.bytes_append, Trace.bytes_append, hk, ca2, hpass]
+          rcases hh with ⟨h1, _⟩ | ⟨h1, _⟩ <;> simp [h1, hdrEv]
         · intro _; exact hnext
+        · refine ⟨rfl, (by simp [hraw]), (fun hdn => by rw [hdone] at hdn; cases hdn), hdrEv (d.raw.consume (d.content ++ extra)).2.2,
+            [WEv.send (d.raw.consume (d.content ++ extra)).2.1 (d.final && !d.eofSend)], by simp, ?_, Or.inr ⟨_, rfl, rfl, ?_⟩⟩
+          · rcases hh with ⟨h1, h2⟩ | ⟨h1, h2⟩
+            · right; exact ⟨by rw [h1]; rfl, hraw, hdone, h2⟩
+            · left; exact ⟨by rw [h1]; rfl, fun _ => by show (d.raw.consume (d.content ++ extra)).1.done = d.raw.done; rw [h2, hdone]⟩
+          · intro _ hnd
+            have hnd' : (d.raw.consume (d.content ++ extra)).1.done = false := hnd
+            simp only [hnd', Bool.false_or] at hsend
+            exact hsend
         · intro hf
           simp only [eofFlag] at hf
-          rw [hf, ca2, hpass, ← hk]
-          simp
-      · simp only [hsend, Bool.false_eq_true, if_false, hk2]
+          rw [Trace.sends_append, Trace.sends_append, hf, ca2, hpass, ← hk]
+          rcases hh with ⟨h1, _⟩ | ⟨h1, _⟩ <;> simp [h1, hdrEv]
+      · simp only [hsend, Bool.false_eq_true, if_false]
         simp only [Bool.or_eq_true, not_or, Bool.not_eq_true] at hsend
         have hempty := consume_not_done (d.content ++ extra) d.raw hsend.1
-        refine ⟨_, _, rfl, (by first | exact hd | rfl), (by first | exact hraw | rfl), rfl, rfl, rfl, rfl, rfl, rfl, ?_, ?_, ?_, Or.inr ⟨rfl, hsend.2⟩, ?_⟩
-        · simp [eofFlag, hsend.2]
-        · rw [hk, ca2, ← hpass, hempty, List.append_nil]
+        have hnone : (d.raw.consume (d.content ++ extra)).2.2 = none := by
+          rcases hh with ⟨_, h2⟩ | ⟨h1, _⟩
+          · rw [hsend.1] at h2; cases h2
+          · exact h1
+        refine ⟨_, _, rfl, (by first | exact hd | rfl), rfl, rfl, rfl, rfl, rfl, ?_, ?_, ?_, ?_, rfl⟩
+        · rw [hnone]; simp only [hdrEv, List.append_nil]
+          rw [hk, ca2, ← hpass, hempty, List.append_nil]
         · intro _; exact hnext
+        · refine ⟨rfl, (by simp [hraw]), (fun hdn => by rw [hdone] at hdn; cases hdn), [], [], (by rw [hnone]; simp [hdrEv]), Or.inl ⟨rfl, fun _ => ?_⟩, Or.inl ⟨rfl, ?_⟩⟩
+          · show (d.raw.consume (d.content ++ extra)).1.done = d.raw.done; rw [hsend.1, hdone]
+          · show (d.eofSend || (d.final && !d.eofSend)) = d.eofSend
+            rw [hsend.2, Bool.or_false]
         · intro hf; simp only [eofFlag] at hf; rw [hsend.2] at hf; cases hf
   · simp only [Bool.not_eq_true] at hraw
-    simp only [hraw, Bool.false_and, Bool.false_eq_true, if_false, logIf, if_true, hout, filterOf] at hk ⊢
-    refine ⟨_, _, rfl, (by first | exact hd | rfl), (by first | exact hraw | rfl), rfl, rfl, rfl, rfl, rfl, rfl, rfl, ?_, ?_, Or.inl ⟨_, rfl⟩, ?_⟩
-    · rw [Log.bytes_append, hk, hfe]
+    simp only [hraw, Bool.false_and, Bool.false_eq_true, if_false, traceIf, if_true, hout, filterOf] at hk ⊢
+    refine ⟨_, _, rfl, (by first | exact hd | rfl), rfl, rfl, rfl, rfl, rfl, ?_, ?_, ?_, ?_, rfl⟩
+    · rw [Trace.bytes_append, hk, Trace.bytes_send, hfe]
     · intro h; cases h
+    · refine ⟨rfl, (by simp [hraw]), fun _ => rfl, [], [WEv.send (d.content ++ extra) (d.final && !d.eofSend)], by simp,
+        Or.inl ⟨rfl, fun h => by rw [hraw] at h⟩, Or.inr ⟨_, rfl, rfl, fun h => by rw [hraw] at h; cases h⟩⟩
     · intro hf
       simp only [eofFlag] at hf
-      rw [hf, ← hfe, ← hk]
+      rw [Trace.sends_append, hf, ← hfe, ← hk]
       simp
 
+
 /-- after a successful write the buffer is reset; the invariant holds with everything fed -/
-theorem Dev.inv_reset (d' : Dev) (k' : Log) (all : Bytes) (v : Bytes) (hd : d'.dead = false)
-    (hk : Log.bytes k' = filterOf d'.rawMode all) (hr : d'.rawMode = true → d'.raw = rawNext {} all) :
+theorem Dev.inv_reset (d' : Dev) (k' : Trace) (all : Bytes) (v : Bytes) (hd : d'.dead = false)
+    (hk : k'.bytes = filterOf d'.rawMode all) (hr : d'.rawMode = true → d'.raw = rawNext {} all) :
     ({ d' with vec := v, pos := 0 } : Dev).Inv k' all :=
   ⟨all, hd, Nat.zero_le _, by simp, hk, hr⟩
 
-theorem Dev.basicOverflow_inv (d : Dev) (k : Log) (inp : Bytes) (c : Option UInt8) (h : d.Inv k inp) :
-    (d.basicOverflow logIf k c).1.Inv (d.basicOverflow logIf k c).2 (inp ++ c.toList) ∧
-    LogStep d (d.basicOverflow logIf k c).1 k (d.basicOverflow logIf k c).2 := by
-  have key : ∀ (extra : Bytes) (out : List Bytes), out.flatten = d.content ++ extra →
-      ((if (d.write logIf k out).2.2 = true then ((d.write logIf k out).1.doSetp, (d.write logIf k out).2.1)
-        else ((d.write logIf k out).1, (d.write logIf k out).2.1)) : Dev × Log).1.Inv
-        ((if (d.write logIf k out).2.2 = true then ((d.write logIf k out).1.doSetp, (d.write logIf k out).2.1)
-          else ((d.write logIf k out).1, (d.write logIf k out).2.1)) : Dev × Log).2 (inp ++ extra) ∧
-      LogStep d ((if (d.write logIf k out).2.2 = true then ((d.write logIf k out).1.doSetp, (d.write logIf k out).2.1)
-          else ((d.write logIf k out).1, (d.write logIf k out).2.1)) : Dev × Log).1 k
-        ((if (d.write logIf k out).2.2 = true then ((d.write logIf k out).1.doSetp, (d.write logIf k out).2.1)
-          else ((d.write logIf k out).1, (d.write logIf k out).2.1)) : Dev × Log).2 := by
-    intro extra out hout
-    obtain ⟨d', k', hw, w1, w2, w3, w4, w5, w6, w7, w8, w9, w10, w11, w12, _⟩ := Dev.write_inv d k inp extra out hout h
-    rw [hw]
-    simp only [if_true]
-    refine ⟨?_, ?_, ?_⟩
-    · exact Dev.inv_reset d' k' _ _ w1 (by rw [w2]; exact w10) (by rw [w2]; exact w11)
-    · show d'.final = d.final; exact w8
-    · rcases w12 with ⟨bs, hb⟩ | ⟨hb, hf⟩
-      · exact Or.inr (Or.inl ⟨bs, hb, w9⟩)
-      · exact Or.inr (Or.inr ⟨hb, hf, by show d'.eofSend = false; rw [w9, hf]⟩)
+/-- the common tail of `overflow` / `xsputn`: `write(content ++ extra)`, then `do_setp` -/
+theorem Dev.writeThenSetp_inv (d : Dev) (k : Trace) (inp extra : Bytes) (out : List Bytes) (hout : out.flatten = d.content ++ extra)
+    (h : d.Inv k inp) :
+    ((if (d.write traceIf k out).2.2 = true then ((d.write traceIf k out).1.doSetp, (d.write traceIf k out).2.1)
+      else ((d.write traceIf k out).1, (d.write traceIf k out).2.1)) : Dev × Trace).1.Inv
+      ((if (d.write traceIf k out).2.2 = true then ((d.write traceIf k out).1.doSetp, (d.write traceIf k out).2.1)
+        else ((d.write traceIf k out).1, (d.write traceIf k out).2.1)) : Dev × Trace).2 (inp ++ extra) ∧
+    Step d ((if (d.write traceIf k out).2.2 = true then ((d.write traceIf k out).1.doSetp, (d.write traceIf k out).2.1)
+        else ((d.write traceIf k out).1, (d.write traceIf k out).2.1)) : Dev × Trace).1 k
+      ((if (d.write traceIf k out).2.2 = true then ((d.write traceIf k out).1.doSetp, (d.write traceIf k out).2.1)
+        else ((d.write traceIf k out).1, (d.write traceIf k out).2.1)) : Dev × Trace).2 := by
+  obtain ⟨d', k', hw, w1, _, _, _, _, _, w10, w11, w12, _, _⟩ := Dev.write_inv d k inp extra out hout h
+  rw [hw]
+  simp only [if_true]
+  have hm := w12.mode
+  refine ⟨Dev.inv_reset d' k' _ _ w1 (by rw [hm]; exact w10) (by rw [hm]; exact w11), ?_⟩
+  exact w12.into rfl rfl rfl rfl
+
+theorem Dev.basicOverflow_inv (d : Dev) (k : Trace) (inp : Bytes) (c : Option UInt8) (h : d.Inv k inp) :
+    (d.basicOverflow traceIf k c).1.Inv (d.basicOverflow traceIf k c).2 (inp ++ c.toList) ∧
+    Step d (d.basicOverflow traceIf k c).1 k (d.basicOverflow traceIf k c).2 := by
   cases c with
   | none =>
-    have := key [] [d.content] (by simp)
+    have := Dev.writeThenSetp_inv d k inp [] [d.content] (by simp) h
     simpa [Dev.basicOverflow] using this
   | some c =>
-    have := key [c] [d.content, [c]] (by simp)
+    have := Dev.writeThenSetp_inv d k inp [c] [d.content, [c]] (by simp) h
     simpa [Dev.basicOverflow] using this
 
-theorem Dev.pokeBlock_inv (d : Dev) (k : Log) (inp s : Bytes) (h : d.Inv k inp) (hfit : d.pos + s.length ≤ d.vec.length) :
+theorem Dev.pokeBlock_inv (d : Dev) (k : Trace) (inp s : Bytes) (h : d.Inv k inp) (hfit : d.pos + s.length ≤ d.vec.length) :
     ({ d with vec := poke d.vec d.pos s, pos := d.pos + s.length } : Dev).Inv k (inp ++ s) := by
   obtain ⟨fed, hd, hp, hi, hk, hr⟩ := h
   refine ⟨fed, hd, ?_, ?_, hk, hr⟩
@@ -300,11 +421,9 @@ theorem Dev.pokeBlock_inv (d : Dev) (k : Log) (inp s : Bytes) (h : d.Inv k inp) 
   · show fed ++ (poke d.vec d.pos s).take (d.pos + s.length) = inp ++ s
     rw [poke_take _ _ _ hfit, ← List.append_assoc, hi]
 
-theorem LogStep.refl (d : Dev) (k : Log) : LogStep d d k k := ⟨rfl, Or.inl ⟨rfl, rfl⟩⟩
-
-theorem Dev.basicXsputn_inv (d : Dev) (k : Log) (inp s : Bytes) (h : d.Inv k inp) :
-    (d.basicXsputn logIf k s).1.Inv (d.basicXsputn logIf k s).2 (inp ++ s) ∧
-    LogStep d (d.basicXsputn logIf k s).1 k (d.basicXsputn logIf k s).2 := by
+theorem Dev.basicXsputn_inv (d : Dev) (k : Trace) (inp s : Bytes) (h : d.Inv k inp) :
+    (d.basicXsputn traceIf k s).1.Inv (d.basicXsputn traceIf k s).2 (inp ++ s) ∧
+    Step d (d.basicXsputn traceIf k s).1 k (d.basicXsputn traceIf k s).2 := by
   unfold Dev.basicXsputn
   by_cases hfit : s.length ≤ d.vec.length - d.pos
   · simp only [hfit, if_true]
@@ -313,50 +432,29 @@ theorem Dev.basicXsputn_inv (d : Dev) (k : Log) (inp s : Bytes) (h : d.Inv k inp
     · have : s = [] := by simpa [List.isEmpty_iff] using he
       subst this
       simp only [List.isEmpty_nil, if_true, List.append_nil]
-      exact ⟨h, LogStep.refl d k⟩
+      exact ⟨h, Step.refl d k⟩
     · simp only [he, Bool.false_eq_true, if_false]
-      exact ⟨Dev.pokeBlock_inv d k inp s h (by omega), ⟨rfl, Or.inl ⟨rfl, rfl⟩⟩⟩
+      exact ⟨Dev.pokeBlock_inv d k inp s h (by omega), Step.of_fields k rfl rfl rfl rfl⟩
   · simp only [hfit, if_false]
-    obtain ⟨d', k', hw, w1, w2, w3, w4, w5, w6, w7, w8, w9, w10, w11, w12, _⟩ :=
-      Dev.write_inv d k inp s [d.content, s] (by simp) h
-    rw [hw]
-    simp only [if_true]
-    refine ⟨Dev.inv_reset d' k' _ _ w1 (by rw [w2]; exact w10) (by rw [w2]; exact w11), w8, ?_⟩
-    rcases w12 with ⟨bs, hb⟩ | ⟨hb, hf⟩
-    · exact Or.inr (Or.inl ⟨bs, hb, w9⟩)
-    · exact Or.inr (Or.inr ⟨hb, hf, by show d'.eofSend = false; rw [w9, hf]⟩)
+    exact Dev.writeThenSetp_inv d k inp s [d.content, s] (by simp) h
 
-theorem Dev.flush_inv (d : Dev) (k : Log) (inp : Bytes) (h : d.Inv k inp) :
-    (d.flush logIf k).1.Inv (d.flush logIf k).2.1 inp ∧ (d.flush logIf k).1.pos = 0 ∧ (d.flush logIf k).2.2 = true ∧
-    LogStep d (d.flush logIf k).1 k (d.flush logIf k).2.1 ∧ (d.flush logIf k).1.eofSend = eofFlag d ∧
-    Log.bytes (d.flush logIf k).2.1 = filterOf d.rawMode inp ∧
-    (eofFlag d = true → (d.flush logIf k).2.1 = k ++ [((filterOf d.rawMode inp).drop (Log.bytes k).length, true)]) ∧
-    (d.flush logIf k).1.vec = d.vec ∧ (d.flush logIf k).1.bufferSize = d.bufferSize ∧
-    (d.flush logIf k).1.isAsync = d.isAsync ∧ (d.flush logIf k).1.fullBuffering = d.fullBuffering ∧ (d.flush logIf k).1.rawMode = d.rawMode := by
-  obtain ⟨d', k', hw, w1, w2, w3, w4, w5, w6, w7, w8, w9, w10, w11, w12, w13⟩ :=
+theorem Dev.flush_inv (d : Dev) (k : Trace) (inp : Bytes) (h : d.Inv k inp) :
+    (d.flush traceIf k).1.Inv (d.flush traceIf k).2.1 inp ∧ (d.flush traceIf k).1.pos = 0 ∧ (d.flush traceIf k).2.2 = true ∧
+    Step d (d.flush traceIf k).1 k (d.flush traceIf k).2.1 ∧
+    (d.flush traceIf k).2.1.bytes = filterOf d.rawMode inp ∧
+    (eofFlag d = true → (d.flush traceIf k).2.1.sends = k.sends ++ [((filterOf d.rawMode inp).drop k.bytes.length, true)]) ∧
+    (d.flush traceIf k).1.eofSend = (d.eofSend || eofFlag d) := by
+  obtain ⟨d', k', hw, w1, w3, _, _, _, _, w10, w11, w12, w13, w14⟩ :=
     Dev.write_inv d k inp [] [d.content] (by simp) h
   simp only [List.append_nil] at w10 w11 w13
   unfold Dev.flush
   rw [hw]
-  refine ⟨?_, rfl, rfl, ⟨w8, ?_⟩, w9, w10, w13, w3, w5, w6, w7, w2⟩
-  · have := Dev.inv_reset d' k' inp d'.vec w1 (by rw [w2]; exact w10) (by rw [w2]; exact w11)
-    exact this
-  · rcases w12 with ⟨bs, hb⟩ | ⟨hb, hf⟩
-    · exact Or.inr (Or.inl ⟨bs, hb, w9⟩)
-    · exact Or.inr (Or.inr ⟨hb, hf, by show d'.eofSend = false; rw [w9, hf]⟩)
+  have hm := w12.mode
+  refine ⟨?_, rfl, rfl, w12.into rfl rfl rfl rfl, w10, w13, w14⟩
+  exact Dev.inv_reset d' k' inp d'.vec w1 (by rw [hm]; exact w10) (by rw [hm]; exact w11)
 
-theorem LogStep.of_final {d d1 d' : Dev} {k k' : Log} (h : LogStep d1 d' k k') (hf : d1.final = d.final) (he : d1.eofSend = d.eofSend) :
-    LogStep d d' k k' := by
-  obtain ⟨h1, h2⟩ := h
-  have hflag : eofFlag d1 = eofFlag d := by simp [eofFlag, hf, he]
-  refine ⟨by rw [h1, hf], ?_⟩
-  rcases h2 with ⟨a, c⟩ | ⟨bs, a, c⟩ | ⟨a, c, e⟩
-  · exact Or.inl ⟨a, by rw [c, he]⟩
-  · exact Or.inr (Or.inl ⟨bs, by rw [a, hflag], by rw [c, hflag]⟩)
-  · exact Or.inr (Or.inr ⟨a, by rw [← hflag]; exact c, e⟩)
-
-theorem Dev.basicSetbuf_inv (d : Dev) (k : Log) (inp : Bytes) (size : Nat) (h : d.Inv k inp) :
-    (d.basicSetbuf logIf k size).1.Inv (d.basicSetbuf logIf k size).2 inp ∧ LogStep d (d.basicSetbuf logIf k size).1 k (d.basicSetbuf logIf k size).2 := by
+theorem Dev.basicSetbuf_inv (d : Dev) (k : Trace) (inp : Bytes) (size : Nat) (h : d.Inv k inp) :
+    (d.basicSetbuf traceIf k size).1.Inv (d.basicSetbuf traceIf k size).2 inp ∧ Step d (d.basicSetbuf traceIf k size).1 k (d.basicSetbuf traceIf k size).2 := by
   unfold Dev.basicSetbuf
   simp only
   by_cases hgt : d.pos > size
@@ -364,7 +462,7 @@ theorem Dev.basicSetbuf_inv (d : Dev) (k : Log) (inp : Bytes) (size : Nat) (h : 
     have hinv0 : ({ d with bufferSize := size } : Dev).Inv k inp := h
     have ⟨f1, f2, f3, f4, _⟩ := Dev.flush_inv { d with bufferSize := size } k inp hinv0
     simp only [f3, if_true]
-    refine ⟨?_, f4.of_final rfl rfl⟩
+    refine ⟨?_, (Step.from (d := d) f4 rfl rfl rfl rfl).into rfl rfl rfl rfl⟩
     obtain ⟨fed, g1, g2, g3, g4, g5⟩ := f1
     refine ⟨fed, g1, Nat.zero_le _, ?_, g4, g5⟩
     rw [f2] at g3
@@ -372,19 +470,19 @@ theorem Dev.basicSetbuf_inv (d : Dev) (k : Log) (inp : Bytes) (size : Nat) (h : 
     simpa using g3
   · simp only [hgt, if_false]
     obtain ⟨fed, hd, hp, hi, hk, hr⟩ := h
-    refine ⟨⟨fed, hd, ?_, ?_, hk, hr⟩, rfl, Or.inl ⟨rfl, rfl⟩⟩
+    refine ⟨⟨fed, hd, ?_, ?_, hk, hr⟩, Step.of_fields k rfl rfl rfl rfl⟩
     · show d.pos ≤ (resize d.vec size).length
       rw [resize_length]; omega
     · show fed ++ (resize d.vec size).take d.pos = inp
       rw [resize_take _ _ _ hp (by omega)]; exact hi
 
-theorem Dev.setbuf_inv (d : Dev) (k : Log) (inp : Bytes) (size : Nat) (h : d.Inv k inp) :
-    (d.setbuf logIf k size).1.Inv (d.setbuf logIf k size).2 inp ∧ LogStep d (d.setbuf logIf k size).1 k (d.setbuf logIf k size).2 := by
+theorem Dev.setbuf_inv (d : Dev) (k : Trace) (inp : Bytes) (size : Nat) (h : d.Inv k inp) :
+    (d.setbuf traceIf k size).1.Inv (d.setbuf traceIf k size).2 inp ∧ Step d (d.setbuf traceIf k size).1 k (d.setbuf traceIf k size).2 := by
   unfold Dev.setbuf
   by_cases hm : (d.isAsync && d.fullBuffering) = true
   · simp only [hm, if_true]
     obtain ⟨fed, hd, hp, hi, hk, hr⟩ := h
-    refine ⟨⟨fed, hd, ?_, ?_, hk, hr⟩, rfl, Or.inl ⟨rfl, rfl⟩⟩
+    refine ⟨⟨fed, hd, ?_, ?_, hk, hr⟩, Step.of_fields k rfl rfl rfl rfl⟩
     · show d.pos ≤ (resize d.vec (if d.pos > size then d.pos else size)).length
       rw [resize_length]; split <;> omega
     · show fed ++ (resize d.vec (if d.pos > size then d.pos else size)).take d.pos = inp
@@ -392,42 +490,42 @@ theorem Dev.setbuf_inv (d : Dev) (k : Log) (inp : Bytes) (size : Nat) (h : d.Inv
   · simp only [hm, Bool.false_eq_true, if_false]
     exact Dev.basicSetbuf_inv d k inp size h
 
-theorem Dev.overflow_inv (d : Dev) (k : Log) (inp : Bytes) (c : Option UInt8) (h : d.Inv k inp) :
-    (d.overflow logIf k c).1.Inv (d.overflow logIf k c).2 (inp ++ c.toList) ∧ LogStep d (d.overflow logIf k c).1 k (d.overflow logIf k c).2 := by
+theorem Dev.overflow_inv (d : Dev) (k : Trace) (inp : Bytes) (c : Option UInt8) (h : d.Inv k inp) :
+    (d.overflow traceIf k c).1.Inv (d.overflow traceIf k c).2 (inp ++ c.toList) ∧ Step d (d.overflow traceIf k c).1 k (d.overflow traceIf k c).2 := by
   unfold Dev.overflow
   by_cases hm : (d.isAsync && d.fullBuffering) = true
   · simp only [hm, if_true]
     have h' := h
     obtain ⟨fed, hd, hp, hi, hk, hr⟩ := h
     have hg : ∃ d1 : Dev, (if d.pos = d.vec.length then { d with vec := resize d.vec (Gen.nextSize d.vec.length) } else d) = d1 ∧
-        d1.Inv k inp ∧ d1.pos < d1.vec.length ∧ d1.final = d.final ∧ d1.eofSend = d.eofSend := by
+        d1.Inv k inp ∧ d1.pos < d1.vec.length ∧ d1.final = d.final ∧ d1.eofSend = d.eofSend ∧ d1.rawMode = d.rawMode ∧ d1.raw = d.raw := by
       by_cases hf : d.pos = d.vec.length
       · refine ⟨_, rfl, ?_⟩
         rw [if_pos hf]
         have hn := nextSize_gt d.vec.length
-        refine ⟨⟨fed, hd, ?_, ?_, hk, hr⟩, ?_, rfl, rfl⟩
+        refine ⟨⟨fed, hd, ?_, ?_, hk, hr⟩, ?_, rfl, rfl, rfl, rfl⟩
         · show d.pos ≤ (resize d.vec (Gen.nextSize d.vec.length)).length
           rw [resize_length]; omega
         · show fed ++ (resize d.vec (Gen.nextSize d.vec.length)).take d.pos = inp
           rw [resize_take _ _ _ hp (by omega)]; exact hi
         · show d.pos < (resize d.vec (Gen.nextSize d.vec.length)).length
           rw [resize_length]; omega
-      · refine ⟨d, by simp [hf], h', by omega, rfl, rfl⟩
-    obtain ⟨d1, hd1, hinv1, hroom, hf1, he1⟩ := hg
+      · refine ⟨d, by simp [hf], h', by omega, rfl, rfl, rfl, rfl⟩
+    obtain ⟨d1, hd1, hinv1, hroom, hf1, he1, hm1, hr1⟩ := hg
     rw [hd1]
     cases c with
     | none =>
       simp only [Option.toList_none, List.append_nil]
-      exact ⟨hinv1, hf1, Or.inl ⟨rfl, he1⟩⟩
+      exact ⟨hinv1, Step.of_fields k hf1 hm1 hr1 he1⟩
     | some c =>
       simp only [Option.toList_some]
       have := Dev.pokeBlock_inv d1 k inp [c] hinv1 (by simp only [List.length_cons, List.length_nil]; omega)
-      exact ⟨this, hf1, Or.inl ⟨rfl, he1⟩⟩
+      exact ⟨this, Step.of_fields k hf1 hm1 hr1 he1⟩
   · simp only [hm, Bool.false_eq_true, if_false]
     exact Dev.basicOverflow_inv d k inp c h
 
-theorem Dev.xsputn_inv (d : Dev) (k : Log) (inp s : Bytes) (h : d.Inv k inp) :
-    (d.xsputn logIf k s).1.Inv (d.xsputn logIf k s).2 (inp ++ s) ∧ LogStep d (d.xsputn logIf k s).1 k (d.xsputn logIf k s).2 := by
+theorem Dev.xsputn_inv (d : Dev) (k : Trace) (inp s : Bytes) (h : d.Inv k inp) :
+    (d.xsputn traceIf k s).1.Inv (d.xsputn traceIf k s).2 (inp ++ s) ∧ Step d (d.xsputn traceIf k s).1 k (d.xsputn traceIf k s).2 := by
   unfold Dev.xsputn
   by_cases hm : (d.isAsync && d.fullBuffering) = true
   · simp only [hm, if_true]
@@ -435,64 +533,64 @@ theorem Dev.xsputn_inv (d : Dev) (k : Log) (inp s : Bytes) (h : d.Inv k inp) :
     obtain ⟨fed, hd, hp, hi, hk, hr⟩ := h
     have hg : ∃ d1 : Dev, (if d.vec.length - d.pos < s.length then
           { d with vec := resize d.vec (growTo (d.pos + s.length + 1) (Gen.nextSize d.vec.length) (d.pos + s.length)) } else d) = d1 ∧
-        d1.Inv k inp ∧ d1.pos + s.length ≤ d1.vec.length ∧ d1.final = d.final ∧ d1.eofSend = d.eofSend := by
+        d1.Inv k inp ∧ d1.pos + s.length ≤ d1.vec.length ∧ d1.final = d.final ∧ d1.eofSend = d.eofSend ∧ d1.rawMode = d.rawMode ∧ d1.raw = d.raw := by
       by_cases hf : d.vec.length - d.pos < s.length
       · refine ⟨_, rfl, ?_⟩
         simp only [hf, if_true]
         have hn := nextSize_gt d.vec.length
         have g1 := growTo_ge_start (d.pos + s.length + 1) (Gen.nextSize d.vec.length) (d.pos + s.length)
         have g2 := growTo_ge_min (d.pos + s.length + 1) (Gen.nextSize d.vec.length) (d.pos + s.length) (by omega) (by omega)
-        refine ⟨⟨fed, hd, ?_, ?_, hk, hr⟩, ?_, (by rt), (by rt)⟩
+        refine ⟨⟨fed, hd, ?_, ?_, hk, hr⟩, ?_, (by rt), (by rt), (by rt), (by rt)⟩
         · show d.pos ≤ (resize d.vec _).length
           rw [resize_length]; omega
         · show fed ++ (resize d.vec _).take d.pos = inp
           rw [resize_take _ _ _ hp (by omega)]; exact hi
         · show d.pos + s.length ≤ (resize d.vec _).length
           rw [resize_length]; exact g2
-      · refine ⟨d, by simp [hf], h', by omega, rfl, rfl⟩
-    obtain ⟨d1, hd1, hinv1, hroom, hf1, he1⟩ := hg
+      · refine ⟨d, by simp [hf], h', by omega, rfl, rfl, rfl, rfl⟩
+    obtain ⟨d1, hd1, hinv1, hroom, hf1, he1, hm1, hr1⟩ := hg
     rw [hd1]
     by_cases he : s.isEmpty = true
     · have : s = [] := by simpa [List.isEmpty_iff] using he
       subst this
       simp only [List.isEmpty_nil, if_true, List.append_nil]
-      exact ⟨hinv1, hf1, Or.inl ⟨rfl, he1⟩⟩
+      exact ⟨hinv1, Step.of_fields k hf1 hm1 hr1 he1⟩
     · simp only [he, Bool.false_eq_true, if_false]
-      exact ⟨Dev.pokeBlock_inv d1 k inp s hinv1 hroom, hf1, Or.inl ⟨rfl, he1⟩⟩
+      exact ⟨Dev.pokeBlock_inv d1 k inp s hinv1 hroom, Step.of_fields k hf1 hm1 hr1 he1⟩
   · simp only [hm, Bool.false_eq_true, if_false]
     exact Dev.basicXsputn_inv d k inp s h
 
-theorem Dev.sputc_inv (d : Dev) (k : Log) (inp : Bytes) (c : UInt8) (h : d.Inv k inp) :
-    (d.sputc logIf k c).1.Inv (d.sputc logIf k c).2 (inp ++ [c]) ∧ LogStep d (d.sputc logIf k c).1 k (d.sputc logIf k c).2 := by
+theorem Dev.sputc_inv (d : Dev) (k : Trace) (inp : Bytes) (c : UInt8) (h : d.Inv k inp) :
+    (d.sputc traceIf k c).1.Inv (d.sputc traceIf k c).2 (inp ++ [c]) ∧ Step d (d.sputc traceIf k c).1 k (d.sputc traceIf k c).2 := by
   unfold Dev.sputc
   by_cases hr : d.pos < d.vec.length
   · simp only [hr, if_true]
     have := Dev.pokeBlock_inv d k inp [c] h (by simp only [List.length_cons, List.length_nil]; omega)
-    exact ⟨this, rfl, Or.inl ⟨rfl, rfl⟩⟩
+    exact ⟨this, Step.of_fields k rfl rfl rfl rfl⟩
   · simp only [hr, if_false]
     have := Dev.overflow_inv d k inp (some c) h
     simpa using this
 
-theorem Dev.sync_inv (d : Dev) (k : Log) (inp : Bytes) (h : d.Inv k inp) :
-    (d.sync logIf k).1.Inv (d.sync logIf k).2 inp ∧ LogStep d (d.sync logIf k).1 k (d.sync logIf k).2 := by
+theorem Dev.sync_inv (d : Dev) (k : Trace) (inp : Bytes) (h : d.Inv k inp) :
+    (d.sync traceIf k).1.Inv (d.sync traceIf k).2 inp ∧ Step d (d.sync traceIf k).1 k (d.sync traceIf k).2 := by
   have := Dev.overflow_inv d k inp none h
   simpa [Dev.sync] using this
 
-theorem Dev.setFullBuffering_inv (d : Dev) (k : Log) (inp : Bytes) (v : Bool) (h : d.Inv k inp) :
-    (d.setFullBuffering logIf k v).1.Inv (d.setFullBuffering logIf k v).2 inp ∧
-    LogStep d (d.setFullBuffering logIf k v).1 k (d.setFullBuffering logIf k v).2 := by
+theorem Dev.setFullBuffering_inv (d : Dev) (k : Trace) (inp : Bytes) (v : Bool) (h : d.Inv k inp) :
+    (d.setFullBuffering traceIf k v).1.Inv (d.setFullBuffering traceIf k v).2 inp ∧
+    Step d (d.setFullBuffering traceIf k v).1 k (d.setFullBuffering traceIf k v).2 := by
   unfold Dev.setFullBuffering
   by_cases he : d.fullBuffering = v
   · simp only [he, if_true]
-    exact ⟨h, LogStep.refl d k⟩
+    exact ⟨h, Step.refl d k⟩
   · simp only [he, if_false]
     have h1 : ({ d with fullBuffering := v } : Dev).Inv k inp := h
     cases v with
-    | true => simp only [Bool.not_true, Bool.false_eq_true, if_false]; exact ⟨h1, rfl, Or.inl ⟨rfl, rfl⟩⟩
+    | true => simp only [Bool.not_true, Bool.false_eq_true, if_false]; exact ⟨h1, Step.of_fields k rfl rfl rfl rfl⟩
     | false =>
       simp only [Bool.not_false, if_true]
       have := Dev.setbuf_inv _ k inp d.bufferSize h1
-      exact ⟨this.1, this.2.of_final rfl rfl⟩
+      exact ⟨this.1, Step.from (d := d) this.2 rfl rfl rfl rfl⟩
 
 /-! ### traces of device operations -/
 
@@ -511,174 +609,188 @@ def DevOp.data : DevOp → Bytes
   | .putc c => [c]
   | _ => []
 
-def Dev.step (x : Dev × Log) : DevOp → Dev × Log
-  | .put s => x.1.xsputn logIf x.2 s
-  | .putc c => x.1.sputc logIf x.2 c
-  | .sync => x.1.sync logIf x.2
-  | .flush => let r := x.1.flush logIf x.2; (r.1, r.2.1)
-  | .setbuf n => x.1.setbuf logIf x.2 n
-  | .fullBuf v => x.1.setFullBuffering logIf x.2 v
+def Dev.step (x : Dev × Trace) : DevOp → Dev × Trace
+  | .put s => x.1.xsputn traceIf x.2 s
+  | .putc c => x.1.sputc traceIf x.2 c
+  | .sync => x.1.sync traceIf x.2
+  | .flush => let r := x.1.flush traceIf x.2; (r.1, r.2.1)
+  | .setbuf n => x.1.setbuf traceIf x.2 n
+  | .fullBuf v => x.1.setFullBuffering traceIf x.2 v
 
-def Dev.run (x : Dev × Log) (ops : List DevOp) : Dev × Log := ops.foldl Dev.step x
+def Dev.run (x : Dev × Trace) (ops : List DevOp) : Dev × Trace := ops.foldl Dev.step x
 
-/-- no eof has been announced yet -/
-def Quiet (d : Dev) (k : Log) : Prop := d.final = false ∧ d.eofSend = false ∧ Log.eofs k = 0
-
-theorem Quiet.step {d d' : Dev} {k k' : Log} (q : Quiet d k) (h : LogStep d d' k k') : Quiet d' k' := by
-  obtain ⟨q1, q2, q3⟩ := q
-  obtain ⟨h1, h2⟩ := h
-  have hf : eofFlag d = false := by simp [eofFlag, q1]
-  rcases h2 with ⟨hk, he⟩ | ⟨bs, hk, he⟩ | ⟨hk, _, he⟩
-  · exact ⟨by rw [h1, q1], by rw [he, q2], by rw [hk, q3]⟩
-  · refine ⟨by rw [h1, q1], by rw [he, hf], ?_⟩
-    rw [hk, Log.eofs_append, hf, q3]; rfl
-  · exact ⟨by rw [h1, q1], he, by rw [hk, q3]⟩
-
-theorem Dev.step_inv (d : Dev) (k : Log) (inp : Bytes) (op : DevOp) (h : d.Inv k inp) (q : Quiet d k) :
-    (Dev.step (d, k) op).1.Inv (Dev.step (d, k) op).2 (inp ++ op.data) ∧ Quiet (Dev.step (d, k) op).1 (Dev.step (d, k) op).2 := by
+theorem Dev.step_spec (d : Dev) (k : Trace) (inp : Bytes) (op : DevOp) (h : d.Inv k inp) :
+    (Dev.step (d, k) op).1.Inv (Dev.step (d, k) op).2 (inp ++ op.data) ∧ Step d (Dev.step (d, k) op).1 k (Dev.step (d, k) op).2 := by
   cases op with
-  | put s => have := Dev.xsputn_inv d k inp s h; exact ⟨this.1, q.step this.2⟩
-  | putc c => have := Dev.sputc_inv d k inp c h; exact ⟨this.1, q.step this.2⟩
-  | sync =>
-    have := Dev.sync_inv d k inp h
-    simp only [DevOp.data, List.append_nil]
-    exact ⟨this.1, q.step this.2⟩
+  | put s => exact Dev.xsputn_inv d k inp s h
+  | putc c => exact Dev.sputc_inv d k inp c h
+  | sync => simpa [DevOp.data, Dev.step] using Dev.sync_inv d k inp h
   | flush =>
     have ⟨f1, _, _, f4, _⟩ := Dev.flush_inv d k inp h
     simp only [DevOp.data, List.append_nil, Dev.step]
-    exact ⟨f1, q.step f4⟩
-  | setbuf n =>
-    have := Dev.setbuf_inv d k inp n h
-    simp only [DevOp.data, List.append_nil]
-    exact ⟨this.1, q.step this.2⟩
-  | fullBuf v =>
-    have := Dev.setFullBuffering_inv d k inp v h
-    simp only [DevOp.data, List.append_nil]
-    exact ⟨this.1, q.step this.2⟩
+    exact ⟨f1, f4⟩
+  | setbuf n => simpa [DevOp.data, Dev.step] using Dev.setbuf_inv d k inp n h
+  | fullBuf v => simpa [DevOp.data, Dev.step] using Dev.setFullBuffering_inv d k inp v h
 
-theorem Dev.run_inv : ∀ (ops : List DevOp) (d : Dev) (k : Log) (inp : Bytes), d.Inv k inp → Quiet d k →
-    (Dev.run (d, k) ops).1.Inv (Dev.run (d, k) ops).2 (inp ++ (ops.map DevOp.data).flatten) ∧
-    Quiet (Dev.run (d, k) ops).1 (Dev.run (d, k) ops).2 := by
+/-- no eof has been announced yet -/
+def Quiet (d : Dev) (k : Trace) : Prop := d.final = false ∧ d.eofSend = false ∧ k.eofs = 0
+
+theorem Quiet.flag {d : Dev} {k : Trace} (q : Quiet d k) : eofFlag d = false := by simp [eofFlag, q.1]
+
+theorem Quiet.step {d d' : Dev} {k k' : Trace} (q : Quiet d k) (h : Step d d' k k') : Quiet d' k' := by
+  have hf := q.flag
+  obtain ⟨q1, q2, q3⟩ := q
+  refine ⟨by rw [h.final, q1], ?_, by rw [h.eofs hf, q3]⟩
+  obtain ⟨_, _, _, pre, post, _, _, h6⟩ := h
+  rcases h6 with ⟨_, he⟩ | ⟨bs, _, he, _⟩
+  · rw [he, q2]
+  · rw [he, q2, hf]; rfl
+
+/-- the end of the response has been announced: it stays announced, nothing announces it again -/
+def Sealed (d : Dev) : Prop := d.final = true ∧ d.eofSend = true
+
+theorem Sealed.flag {d : Dev} (s : Sealed d) : eofFlag d = false := by simp [eofFlag, s.1, s.2]
+
+theorem Sealed.step {d d' : Dev} {k k' : Trace} (s : Sealed d) (h : Step d d' k k') : Sealed d' ∧ k'.eofs = k.eofs := by
+  have hf := s.flag
+  refine ⟨⟨by rw [h.final, s.1], ?_⟩, h.eofs hf⟩
+  obtain ⟨_, _, _, pre, post, _, _, h6⟩ := h
+  rcases h6 with ⟨_, he⟩ | ⟨bs, _, he, _⟩
+  · rw [he, s.2]
+  · rw [he, s.2]; rfl
+
+/-- raw modes: nothing is sent before the application's header block has been handed to the connection -/
+def RawOk (d : Dev) (k : Trace) : Prop :=
+  d.rawMode = true →
+    (d.raw.done = false → k.sends = [] ∧ k.hdrs = []) ∧
+    (d.raw.done = true → ∃ a c : Trace, k = a ++ WEv.hdr d.raw.h :: c ∧ a.sends = [] ∧ a.hdrs = [] ∧ c.hdrs = [])
+
+theorem RawOk.step {d d' : Dev} {k k' : Trace} (r : RawOk d k) (h : Step d d' k k')
+    (hf : eofFlag d = false ∨ d'.raw.done = true) : RawOk d' k' := by
+  unfold RawOk
+  intro hm'
+  have hm : d.rawMode = true := by rw [← h.mode]; exact hm'
+  obtain ⟨r1, r2⟩ := r hm
+  obtain ⟨_, _, hkeep, pre, post, h4, h5, h6⟩ := h
+  have hposth : post.hdrs = [] := by
+    rcases h6 with ⟨hq, _⟩ | ⟨bs, hq, _⟩ <;> rw [hq] <;> rfl
+  by_cases hd : d.raw.done = true
+  · -- already complete: the parser does not change any more
+    have hraw := hkeep hd
+    have hpre : pre = [] := by
+      rcases h5 with ⟨hp, _⟩ | ⟨_, _, hnd, _⟩
+      · exact hp
+      · rw [hd] at hnd; cases hnd
+    obtain ⟨a, c, hk, ha1, ha2, hc⟩ := r2 hd
+    rw [hraw]
+    refine ⟨(fun hnd => by rw [hd] at hnd; cases hnd), fun _ => ⟨a, c ++ post, ?_, ha1, ha2, ?_⟩⟩
+    · rw [h4, hpre, List.append_nil, hk]; simp
+    · rw [Trace.hdrs_append, hc, hposth]; rfl
+  · simp only [Bool.not_eq_true] at hd
+    obtain ⟨hs0, hh0⟩ := r1 hd
+    rcases h5 with ⟨hp, hsame⟩ | ⟨hp, _, _, hdone'⟩
+    · -- still incomplete: nothing may have been sent
+      have hnd' : d'.raw.done = false := by rw [hsame hm]; exact hd
+      have hpost : post = [] := by
+        rcases h6 with ⟨hq, _⟩ | ⟨bs, _, _, hq⟩
+        · exact hq
+        · have := hq hm hnd'
+          rcases hf with hf | hf
+          · rw [hf] at this; cases this
+          · rw [hnd'] at hf; cases hf
+      refine ⟨fun _ => ?_, (fun hdn => by rw [hnd'] at hdn; cases hdn)⟩
+      rw [h4, hp, hpost]
+      simp only [List.append_nil]
+      exact ⟨hs0, hh0⟩
+    · -- completed by this write: the header set goes first
+      refine ⟨(fun hnd => by rw [hdone'] at hnd; cases hnd), fun _ => ⟨k, post, ?_, hs0, hh0, hposth⟩⟩
+      rw [h4, hp]; simp
+
+theorem RawOk.append_flush {d : Dev} {k : Trace} (r : RawOk d k) : RawOk d (k ++ [WEv.asyncFlush]) := by
+  unfold RawOk
+  intro hm
+  obtain ⟨r1, r2⟩ := r hm
+  refine ⟨fun hd => ?_, fun hd => ?_⟩
+  · obtain ⟨a, c⟩ := r1 hd
+    simp [Trace.sends_append, Trace.hdrs_append, a, c]
+  · obtain ⟨a, c, hk, h1, h2, h3⟩ := r2 hd
+    exact ⟨a, c ++ [WEv.asyncFlush], by rw [hk]; simp, h1, h2, by rw [Trace.hdrs_append, h3]; rfl⟩
+
+/-- everything the composition needs to know about a device that has not been closed yet -/
+structure DevGood (d : Dev) (k : Trace) (inp : Bytes) : Prop where
+  inv : d.Inv k inp
+  quiet : Quiet d k
+  raw : RawOk d k
+
+theorem DevGood.step {d d' : Dev} {k k' : Trace} {inp inp' : Bytes} (g : DevGood d k inp) (hi : d'.Inv k' inp') (h : Step d d' k k') :
+    DevGood d' k' inp' :=
+  ⟨hi, g.quiet.step h, g.raw.step h (Or.inl g.quiet.flag)⟩
+
+theorem Dev.run_good : ∀ (ops : List DevOp) (d : Dev) (k : Trace) (inp : Bytes), DevGood d k inp →
+    DevGood (Dev.run (d, k) ops).1 (Dev.run (d, k) ops).2 (inp ++ (ops.map DevOp.data).flatten) ∧
+    (Dev.run (d, k) ops).1.rawMode = d.rawMode ∧
+    (d.rawMode = false → (Dev.run (d, k) ops).2.hdrs = k.hdrs) := by
   intro ops
   induction ops with
-  | nil => intro d k inp h q; simpa [Dev.run] using ⟨h, q⟩
+  | nil => intro d k inp g; simpa [Dev.run] using g
   | cons op ops ih =>
-    intro d k inp h q
-    have ⟨h1, q1⟩ := Dev.step_inv d k inp op h q
-    have := ih _ _ _ h1 q1
+    intro d k inp g
+    have ⟨h1, s1⟩ := Dev.step_spec d k inp op g.inv
+    have g1 := g.step h1 s1
+    have ⟨g2, m2, hh2⟩ := ih _ _ _ g1
     simp only [Dev.run, List.foldl_cons, List.map_cons, List.flatten_cons] at *
     rw [← List.append_assoc]
-    exact this
+    refine ⟨g2, by rw [m2, s1.mode], fun hm => ?_⟩
+    rw [hh2 (by rw [s1.mode]; exact hm), s1.hdrs_nonraw hm]
 
 /-- a freshly opened device of either kind, in any io mode -/
 def Dev.fresh (isAsync full raw : Bool) (n : Nat) : Dev :=
   ({ isAsync := isAsync, fullBuffering := full, rawMode := raw } : Dev).open n
 
-theorem Dev.fresh_inv (isAsync full raw : Bool) (n : Nat) :
-    (Dev.fresh isAsync full raw n).Inv [] [] ∧ Quiet (Dev.fresh isAsync full raw n) [] ∧ (Dev.fresh isAsync full raw n).rawMode = raw := by
-  refine ⟨⟨[], rfl, Nat.zero_le _, ?_, ?_, ?_⟩, ⟨rfl, rfl, rfl⟩, rfl⟩
+theorem Dev.fresh_inv (isAsync full raw : Bool) (n : Nat) (k : Trace) (hk : k.sends = []) :
+    (Dev.fresh isAsync full raw n).Inv k [] ∧ Quiet (Dev.fresh isAsync full raw n) k ∧ (Dev.fresh isAsync full raw n).rawMode = raw := by
+  have hb : k.bytes = [] := by simp [Trace.bytes, hk]
+  have he : k.eofs = 0 := by simp [Trace.eofs, hk]
+  refine ⟨⟨[], rfl, Nat.zero_le _, ?_, ?_, ?_⟩, ⟨rfl, rfl, he⟩, rfl⟩
   · simp [Dev.fresh, Dev.open, Dev.doSetp]
-  · cases raw <;> simp [Log.bytes, filterOf, Dev.fresh, Dev.open, Dev.doSetp, rawPassed, RawParser.consume]
+  · rw [hb]; cases raw <;> simp [filterOf, Dev.fresh, Dev.open, Dev.doSetp, rawPassed, RawParser.consume]
   · intro _; simp [Dev.fresh, Dev.open, Dev.doSetp, rawNext, RawParser.consume]
 
-theorem Dev.run_rawMode : ∀ (ops : List DevOp) (d : Dev) (k : Log) (inp : Bytes), d.Inv k inp →
-    (Dev.run (d, k) ops).1.rawMode = d.rawMode := by
-  intro ops
-  induction ops with
-  | nil => intro d k inp _; rfl
-  | cons op ops ih =>
-    intro d k inp h
-    -- every operation keeps the mode; read it off the log equation of the invariant is not possible, so unfold
-    have hstep : (Dev.step (d, k) op).1.rawMode = d.rawMode ∧ ∃ inp', (Dev.step (d, k) op).1.Inv (Dev.step (d, k) op).2 inp' := by
-      cases op with
-      | put s =>
-        refine ⟨?_, _, (Dev.xsputn_inv d k inp s h).1⟩
-        simp only [Dev.step, Dev.xsputn, Dev.basicXsputn]
-        split
-        · split <;> split <;> rfl
-        · split
-          · split <;> rfl
-          · obtain ⟨d', k', hw, w1, w2, _⟩ := Dev.write_inv d k inp s [d.content, s] (by simp) h
-            rw [hw]; simp only [if_true]; exact w2
-      | putc c =>
-        refine ⟨?_, _, (Dev.sputc_inv d k inp c h).1⟩
-        simp only [Dev.step, Dev.sputc, Dev.overflow, Dev.basicOverflow]
-        split
-        · rfl
-        · split
-          · split <;> rfl
-          · obtain ⟨d', k', hw, w1, w2, _⟩ := Dev.write_inv d k inp [c] [d.content, [c]] (by simp) h
-            rw [hw]; simp only [if_true]; exact w2
-      | sync =>
-        refine ⟨?_, _, (Dev.sync_inv d k inp h).1⟩
-        simp only [Dev.step, Dev.sync, Dev.overflow, Dev.basicOverflow]
-        split
-        · split <;> rfl
-        · obtain ⟨d', k', hw, w1, w2, _⟩ := Dev.write_inv d k inp [] [d.content] (by simp) h
-          rw [hw]; simp only [if_true]; exact w2
-      | flush =>
-        have f := Dev.flush_inv d k inp h
-        exact ⟨f.2.2.2.2.2.2.2.2.2.2.2, _, f.1⟩
-      | setbuf n =>
-        refine ⟨?_, _, (Dev.setbuf_inv d k inp n h).1⟩
-        simp only [Dev.step, Dev.setbuf, Dev.basicSetbuf]
-        split
-        · rfl
-        · split
-          · have f := Dev.flush_inv { d with bufferSize := n } k inp h
-            simp only [f.2.2.1, if_true]
-            exact f.2.2.2.2.2.2.2.2.2.2.2
-          · rfl
-      | fullBuf v =>
-        refine ⟨?_, _, (Dev.setFullBuffering_inv d k inp v h).1⟩
-        simp only [Dev.step, Dev.setFullBuffering, Dev.setbuf, Dev.basicSetbuf]
-        split
-        · rfl
-        · split
-          · split
-            · rfl
-            · split
-              · have f := Dev.flush_inv { d with fullBuffering := v, bufferSize := d.bufferSize } k inp h
-                simp only [f.2.2.1, if_true]
-                exact f.2.2.2.2.2.2.2.2.2.2.2
-              · rfl
-          · rfl
-    obtain ⟨hm, inp', hinv'⟩ := hstep
-    simp only [Dev.run, List.foldl_cons]
-    have := ih _ _ inp' hinv'
-    simp only [Dev.run] at this
-    rw [this, hm]
-
-/-- `close()` in a quiet state: the buffer is flushed with the eof mark, exactly once -/
-theorem Dev.close_spec (d : Dev) (k : Log) (inp : Bytes) (h : d.Inv k inp) (q : Quiet d k) :
-    Log.bytes (d.close logIf k).2 = filterOf d.rawMode inp ∧ (d.close logIf k).1.content = [] ∧ Log.eofs (d.close logIf k).2 = 1 ∧
-    ((d.close logIf k).2.getLast?.map (fun (x : Bytes × Bool) => x.2)) = some true ∧
-    (d.close logIf k).1.Inv (d.close logIf k).2 inp ∧ (d.close logIf k).1.final = true ∧ (d.close logIf k).1.eofSend = true := by
-  obtain ⟨q1, q2, q3⟩ := q
+/-- `close()` of a device that has not announced eof: the buffer is flushed with the eof mark, exactly once -/
+theorem Dev.close_spec (d : Dev) (k : Trace) (inp : Bytes) (g : DevGood d k inp)
+    (hraw : d.rawMode = true → (rawNext {} inp).done = true) :
+    (d.close traceIf k).2.bytes = filterOf d.rawMode inp ∧ (d.close traceIf k).1.content = [] ∧ (d.close traceIf k).2.eofs = 1 ∧
+    (d.close traceIf k).2.sends = k.sends ++ [((filterOf d.rawMode inp).drop k.bytes.length, true)] ∧
+    (d.close traceIf k).1.Inv (d.close traceIf k).2 inp ∧ Sealed (d.close traceIf k).1 ∧
+    RawOk (d.close traceIf k).1 (d.close traceIf k).2 ∧ (d.close traceIf k).1.rawMode = d.rawMode ∧
+    (d.rawMode = false → (d.close traceIf k).2.hdrs = k.hdrs) := by
+  obtain ⟨h, ⟨q1, q2, q3⟩, r⟩ := g
   unfold Dev.close
   rw [if_neg (by rw [q2]; exact Bool.false_ne_true)]
-  show Log.bytes ({ d with final := true }.flush logIf k).2.1 = _ ∧ ({ d with final := true }.flush logIf k).1.content = [] ∧
-    Log.eofs ({ d with final := true }.flush logIf k).2.1 = 1 ∧ (({ d with final := true }.flush logIf k).2.1.getLast?.map (fun (x : Bytes × Bool) => x.2)) = some true ∧
-    ({ d with final := true }.flush logIf k).1.Inv ({ d with final := true }.flush logIf k).2.1 inp ∧
-    ({ d with final := true }.flush logIf k).1.final = true ∧ ({ d with final := true }.flush logIf k).1.eofSend = true
   have hinv : ({ d with final := true } : Dev).Inv k inp := h
-  have ⟨f1, f2, f3, f4, f5, f6, f7, _⟩ := Dev.flush_inv { d with final := true } k inp hinv
+  have ⟨f1, f2, _, f4, f6, f7, f8⟩ := Dev.flush_inv { d with final := true } k inp hinv
   have hflag : eofFlag { d with final := true } = true := by simp [eofFlag, q2]
   have hk := f7 hflag
-  refine ⟨f6, ?_, ?_, ?_, f1, f4.1, by rw [f5, hflag]⟩
+  have hr0 : RawOk { d with final := true } k := by
+    unfold RawOk; intro hm; exact r hm
+  -- the parser is complete after this write (raw modes)
+  have hdone : ({ d with final := true }.flush traceIf k).1.rawMode = true → ({ d with final := true }.flush traceIf k).1.raw.done = true := by
+    intro hm
+    obtain ⟨fed, _, _, g3, _, g5⟩ := f1
+    rw [f2] at g3
+    simp only [List.take_zero, List.append_nil] at g3
+    rw [g5 hm, g3]
+    exact hraw (by rw [← f4.mode]; exact hm)
+  have hseal : Sealed ({ d with final := true }.flush traceIf k).1 := by
+    refine ⟨by rw [f4.final], ?_⟩
+    rw [f8, hflag]; simp
+  refine ⟨f6, ?_, ?_, hk, f1, hseal, ?_, f4.mode, fun hm => f4.hdrs_nonraw hm⟩
   · unfold Dev.content; rw [f2]; simp
-  · rw [hk, Log.eofs_append, q3]; rfl
-  · rw [hk]; simp
-
-/-- the `flush_async_chunk` that `async_write_response` issues after `finalize()` adds no second eof and no bytes -/
-theorem Dev.flush_after_close (d : Dev) (k : Log) (inp : Bytes) (h : d.Inv k inp) (hf : d.final = true) (he : d.eofSend = true) :
-    Log.bytes (d.flush logIf k).2.1 = filterOf d.rawMode inp ∧ Log.eofs (d.flush logIf k).2.1 = Log.eofs k := by
-  have ⟨_, _, _, f4, _, f6, _⟩ := Dev.flush_inv d k inp h
-  have hflag : eofFlag d = false := by simp [eofFlag, hf, he]
-  refine ⟨f6, ?_⟩
-  rcases f4.2 with ⟨a, _⟩ | ⟨bs, a, _⟩ | ⟨a, _, _⟩
-  · rw [a]
-  · rw [a, Log.eofs_append, hflag]; rfl
-  · rw [a]
+  · simp only [Trace.eofs] at q3 ⊢
+    rw [hk, List.filter_append]
+    simp [q3]
+  · by_cases hm : d.rawMode = true
+    · exact hr0.step f4 (Or.inr (hdone (by rw [f4.mode]; exact hm)))
+    · intro hm'; rw [f4.mode] at hm'; exact absurd hm' hm
 
 end Cppcms.C03
